@@ -158,6 +158,13 @@ def table_core(u, name, table, sym, tol_check=True, var="weight"):
     ])
     f.closure(1, tuple_param="&(R, R)", ret="vx_y: R", ensures=["vx_y@ == " + ("term_sym(*vx_p1)" if sym else "term_one(*vx_p1)")])
     f.closure(2, params="sum: R, x: R", ret="vx_s: R", ensures=["vx_s@ == sum@ + x@"])
+    # the witness of the existential postcondition, spelled out (the obligation was seed-dependent without it)
+    f.hint("before: return Ok(area)", f"""proof {{
+            let kk = it.index@;
+            assert(area@ == rule({T}, kk, {S}));
+            assert(prev_area@ == rule({T}, kk - 1, {S}));
+            assert(accepted({T}, kk, {S}, tol@, area@));
+        }}""")
     return f
 
 
